@@ -423,6 +423,9 @@ parse_next_record_header:
         /* Parse handshake messages until buffer runs out */
         while (p != end)
         {
+            /* Progress is judged per message: a complete message followed
+               by a truncated handshake header must not spin forever */
+            p_start = p;
             rc = tls13ParseHandshakeMessage(ssl,
                     &p, end);
             if (rc < 0)
